@@ -125,7 +125,11 @@ def model_term(c, impl):
     # sub-tours of a feasible tour are feasible only under the triangle inequality: replay metric cases only
     metric = O.is_metric(c)
     for k in range(1, len(sts)):
-        if metric and consistent_py(c, sts[k - 1]) and consistent_py(c, sts[k]):
+        # a repair (LKH / infeasible search) rebuilds from InsertionContext::new, where a job that was pending in `ignored`
+        # is an ordinary required job and ends `unassigned`: still one home (checked by inv_b), but no primitive of the
+        # model moves a job out of `ignored`, so such transitions are not replayed
+        same_ignored = sorted(sts[k - 1]['ign']) == sorted(sts[k]['ign'])
+        if metric and same_ignored and consistent_py(c, sts[k - 1]) and consistent_py(c, sts[k]):
             ws = []
             for de, df in VARIANTS:
                 w = explain(c, sts[k - 1], sts[k], df, de)
@@ -264,6 +268,8 @@ def nontrivial_key(c, impl):
 def classify(c, impl):
     labs = ['metric=%s' % O.is_metric(c), 'locks=%d' % len(c.get('locks', []))]
     labs += ['feature:' + k for k, v in c['features'].items() if v]
+    labs.append('ignored_jobs=%d' % len(c.get('ignored', [])))
+    labs.append('steps_with_quota=%d' % sum(1 for o in c['history'] if o.get('quota') is not None))
     if 'panic' in impl:
         return labs + ['panic']
     sts = O.states(impl)
